@@ -112,28 +112,119 @@ impl Decode for Range<u32> {
 // ---------------------------------------------------------------------------------------------
 // IdRanges<()>
 // ---------------------------------------------------------------------------------------------
+pub mod vx_std_sort {
+    use vstd::prelude::*;
+    use core::ops::Range;
+
+    /// A10 (TRUSTED std stand-in): `raw.sort_unstable_by_key(|range| range.start)` (the body is that statement).
+    /// slice::sort_unstable_by_key: "Sorts the slice in ascending order with a key extraction function, without preserving the
+    /// initial order of equal elements": the result is a permutation of the input (same multiset) ordered by the key.
+    /// (Verus has no specification of the slice sorts.)
+    #[verifier::external_body]
+    pub fn vx_sort_by_start(v: &mut Vec<Range<u32>>)
+        ensures
+            final(v)@.to_multiset() == old(v)@.to_multiset(),
+            forall|i: int, j: int| 0 <= i < j < final(v)@.len() ==> (#[trigger] final(v)@[i]).start <= (#[trigger] final(v)@[j]).start,
+    {
+        v.sort_unstable_by_key(|range| range.start);
+    }
+}
+use vx_std_sort::*;
+
+impl<T> Default for IdRanges<T> {
+    /*@extract yrs/src/ids.rs | impl<T> Default for IdRanges<T> | fn default | label=idranges_default
+    @ret r
+    @sig
+        ensures r@ == Seq::<Ent<T>>::empty(),
+    @*/
+}
+
 impl<T: Merge> IdRanges<T> {
-    /*@extract yrs/src/ids.rs | impl<T: Merge> IdRanges<T> | fn from_raw
+    /*@extract yrs/src/ids.rs | impl<T: Merge> IdRanges<T> | fn new | label=idranges_new
+    @ret r
+    @sig
+        ensures r@ == Seq::<Ent<T>>::empty(),
+    @*/
+
+    // (not called by the decoders any more: kept so that a regression to `IdRanges::from_raw(..)` still assembles and FAILS)
+    /*@extract yrs/src/ids.rs | impl<T: Merge> IdRanges<T> | fn from_raw | label=idranges_from_raw
     @ret r
     @sig
         ensures r@ == raw@,
     @*/
+
+    /*@extract yrs/src/ids.rs | impl<T: Merge> IdRanges<T> | fn is_empty | label=idranges_is_empty
+    @ret r
+    @sig
+        ensures r == (self@.len() == 0),
+    @*/
+
+    // STUB: proved in unit ids_insert (contract text cross-checked by the extractor on every run)
+    #[verifier::external_body]
+    /*@extract yrs/src/ids.rs | impl<T: Merge> IdRanges<T> | fn insert_with | label=stub_insert_with
+    @sig
+        requires canon(old(self)@), value.wf(),
+        ensures
+            canon(final(self)@),
+            forall|c: int| #![trigger covers(final(self)@, c)] #![trigger covers(old(self)@, c)] #![trigger inr(range, c)] covers(final(self)@, c) <==> covers(old(self)@, c) || inr(range, c),
+            forall|c: int| covers(old(self)@, c) && !inr(range, c) ==> #[trigger] val_at(final(self)@, c).eq_spec(&val_at(old(self)@, c)),
+            forall|c: int| !covers(old(self)@, c) && inr(range, c) ==> #[trigger] val_at(final(self)@, c).eq_spec(&value),
+            forall|c: int| covers(old(self)@, c) && inr(range, c) ==> #[trigger] val_at(final(self)@, c).eq_spec(&val_at(old(self)@, c).merge_spec(&value)),
+    @*/
+
+    // STUB: proved in unit ids_merge (contract text cross-checked by the extractor on every run); only the (unverified) body of
+    // the stub of `IdSet::insert_range` below calls it
+    #[verifier::external_body]
+    /*@extract yrs/src/ids.rs | impl<T: Merge> IdRanges<T> | fn merge | label=stub_merge
+    @sig
+        requires canon(old(self)@), canon(other@),
+        ensures
+            canon(final(self)@),
+            forall|c: int| covers(final(self)@, c) <==> covers(old(self)@, c) || covers(other@, c),
+            forall|c: int| covers(old(self)@, c) && !covers(other@, c) ==> #[trigger] val_at(final(self)@, c).eq_spec(&val_at(old(self)@, c)),
+            forall|c: int| !covers(old(self)@, c) && covers(other@, c) ==> #[trigger] val_at(final(self)@, c).eq_spec(&val_at(other@, c)),
+            forall|c: int| covers(old(self)@, c) && covers(other@, c) ==> #[trigger] val_at(final(self)@, c).eq_spec(&val_at(old(self)@, c).merge_spec(&val_at(other@, c))),
+    @*/
+}
+
+impl IdRanges<()> {
+    // the contract proved in unit ids_insert (same text), RE-VERIFIED here against the stub of `insert_with`
+    /*@extract yrs/src/ids.rs | impl IdRanges<()> | fn insert | label=idranges_insert
+    @sig
+        requires canon(old(self)@),
+        ensures
+            canon(final(self)@),
+            forall|c: int| #![trigger covers(final(self)@, c)] #![trigger covers(old(self)@, c)] #![trigger inr(range, c)] covers(final(self)@, c) <==> covers(old(self)@, c) || inr(range, c),
+    @*/
+}
+
+/// everything `IdRanges<()>::decode` has established once the raw ranges `raw0` are read (s0 = input at entry, s2 = what is left)
+pub open spec fn idranges_wire<D: Decoder>(s0: Seq<u8>, s2: Seq<u8>, raw0: Seq<Range<u32>>) -> bool {
+    &&& suffix_of(s0, s2)
+    &&& 2 * raw0.len() < s0.len() - s2.len()
+    &&& D::v1() ==> dec_ranges(s0) is Some && dec_ranges(s0)->Some_0.0 == ents_of(raw0) && dec_ranges(s0)->Some_0.1 <= s0.len()
+            && s2 == s0.skip(dec_ranges(s0)->Some_0.1 as int)
 }
 
 impl Decode for IdRanges<()> {
-    // (a) TOTAL + PROGRESS: every iteration consumes >= 2 bytes (invariant `decoder.rest().len() + 2 * n <= s1.len()`)
+    // (a) TOTAL + PROGRESS: every iteration of the reading loop consumes >= 2 bytes (invariant `decoder.rest().len() + 2 * n <= s1.len()`),
+    //     the canonicalising loop runs once per range read
     // (b) ALLOCATION BUDGET: the capacity request goes through vx_budget (F-DC-1, repaired: capped at 1024)
-    // (c) RESULT SHAPE: every range has start <= end, the value has at most (consumed bytes) / 2 entries; NOT canonical
-    // (d) v1: equality with `dec_ranges`
-    /*@extract yrs/src/id_set.rs | impl Decode for IdRanges<()> | fn decode | label=idranges_decode | rules=SUB(from=SmallVec::with_capacity;;to=vx_budget(decoder).vec_with_capacity::<(Range<u32>, ())>)
+    // (c) RESULT SHAPE: CANONICAL (F-DC-9, repaired: sort + insert one by one), at most (consumed bytes) / 2 entries, and not more
+    //     entries than ranges on the wire
+    // (d) v1: `dec_ranges` is the list of RAW ranges on the wire; the result is THE canonical list that covers exactly their
+    //     clocks (`canon_of`; unique by lemma_canon_unique_unit)
+    /*@extract yrs/src/id_set.rs | impl Decode for IdRanges<()> | fn decode | label=idranges_decode | rules=SUB(from=Vec::with_capacity;;to=vx_budget(decoder).vec_with_capacity::<Range<u32>>)
     @ret res
     @sig
         ensures
             res is Ok ==> 2 * res->Ok_0@.len() < old(decoder).rest().len() - final(decoder).rest().len(),
             res is Ok ==> forall|i: int| 0 <= i < res->Ok_0@.len() ==> (#[trigger] res->Ok_0@[i]).0.start <= res->Ok_0@[i].0.end,
             res is Ok ==> res->Ok_0.enc_ok(),
+            res is Ok ==> canon(res->Ok_0@),
             D::v1() ==> match dec_ranges(old(decoder).rest()) {
-                Some((v, k)) => res is Ok && res->Ok_0@ == v && k <= old(decoder).rest().len() && final(decoder).rest() == old(decoder).rest().skip(k as int),
+                Some((raw, k)) => res is Ok && canon_of(raw, res->Ok_0@) && res->Ok_0@.len() <= raw.len()
+                    && k <= old(decoder).rest().len() && final(decoder).rest() == old(decoder).rest().skip(k as int),
                 None => res is Err,
             },
     @start
@@ -145,6 +236,7 @@ impl Decode for IdRanges<()> {
             lemma_read_progress::<u32>(s0, s1, Ok::<u32, Error>(len));
             lemma_suffix_refl(s1);
             lemma_dec_list_start(range_item(), s1, len as nat);
+            assert(ents_of(Seq::<Range<u32>>::empty()) =~= Seq::<Ent<()>>::empty());
         }
     @loop 1 iter=it
         invariant
@@ -155,38 +247,73 @@ impl Decode for IdRanges<()> {
             s1.len() < s0.len(),
             it.snapshot@.remaining().len() == len,
             0 <= it.index@ <= len,
-            ranges@.len() == it.index@,
+            raw@.len() == it.index@,
             decoder.rest().len() + 2 * it.index@ <= s1.len(),
-            forall|i: int| 0 <= i < ranges@.len() ==> (#[trigger] ranges@[i]).0.start <= ranges@[i].0.end,
             D::v1() ==> dec_u32(s0) is Some && dec_u32(s0)->Some_0.0 == len && s1 == s0.skip(dec_u32(s0)->Some_0.1 as int),
             D::v1() ==> kk <= s1.len() && decoder.rest() == s1.skip(kk as int)
-                && dec_list(range_item(), s1, len as nat) == list_join(ranges@, kk, dec_list(range_item(), decoder.rest(), (len - it.index@) as nat)),
-    @before 1 `stmt:call push`
+                && dec_list(range_item(), s1, len as nat) == list_join(ents_of(raw@), kk, dec_list(range_item(), decoder.rest(), (len - it.index@) as nat)),
+    @loopstart 1
         let ghost sa = decoder.rest();
-        let ghost ra = ranges@;
+        let ghost ra = raw@;
         proof {
             lemma_suffix_step(s0, s1, sa);
             lemma_suffix_trans(s0, sa);
             if D::v1() {
                 lemma_range_item_bounded();
-                lemma_dec_list_step(range_item(), 2, s1, len as nat, ra, kk, (len - ra.len()) as nat);
+                lemma_dec_list_step(range_item(), 2, s1, len as nat, ents_of(ra), kk, (len - ra.len()) as nat);
             }
         }
-    @after 1 `stmt:call push`
+    @loopend 1
         proof {
             lemma_suffix_step(s1, sa, decoder.rest());
+            lemma_ents_of_push(ra, raw@.last());
+            assert(raw@ == ra.push(raw@.last()));
             if D::v1() {
                 kk = kk + dec_range(sa)->Some_0.1;
                 assert(dec_range_ent(sa) == range_item()(sa));
             }
         }
-    @before 1 `stmt:call Ok`
+    @afterloop 1
+        let ghost raw0 = raw@;
         proof {
             lemma_suffix_step(s0, s1, decoder.rest());
             if D::v1() {
                 lemma_dec_u32_bounded(s0);
-                lemma_counted_finish(range_item(), s0, dec_u32(s0)->Some_0.1, len as nat, s1, ranges@, kk);
+                lemma_counted_finish(range_item(), s0, dec_u32(s0)->Some_0.1, len as nat, s1, ents_of(raw0), kk);
             }
+            assert(idranges_wire::<D>(s0, decoder.rest(), raw0));
+        }
+    @before 2 `stmt:for`
+        let ghost rs = raw@;
+        proof {
+            lemma_perm_covered(rs, raw0);
+            lemma_empty_canon(rs);
+        }
+    @loop 2 iter=it2
+        invariant
+            s0 == old(decoder).rest(),
+            decoder.wf(),
+            idranges_wire::<D>(s0, decoder.rest(), raw0),
+            it2.seq() == rs,
+            rs.len() == raw0.len(),
+            forall|c: int| covered_upto(rs, rs.len() as int, c) <==> covered_upto(raw0, raw0.len() as int, c),
+            canon(ranges@),
+            ranges@.len() <= it2.index@ <= rs.len(),
+            forall|c: int| #![trigger covers(ranges@, c)] covers(ranges@, c) <==> covered_upto(rs, it2.index@ as int, c),
+    @loopstart 2
+        let ghost r0 = ranges@;
+        let ghost n0 = it2.index@ as int;
+    @loopend 2
+        proof { lemma_insert_step(r0, rs[n0], ranges@, rs, n0); }
+    @afterloop 2
+        proof {
+            lemma_canon_ordered(ranges@);
+            assert forall|c: int| #![trigger covers(ranges@, c)] #![trigger covers(ents_of(raw0), c)] covers(ranges@, c) <==> covers(ents_of(raw0), c) by {
+                lemma_ents_of_covers(raw0, c);
+                assert(covers(ranges@, c) <==> covered_upto(rs, rs.len() as int, c));
+            }
+            assert(canon_of(ents_of(raw0), ranges@));
+            assert(ents_of(raw0).len() == raw0.len());
         }
     @*/
 }
@@ -254,6 +381,32 @@ impl Default for IdSet {
     }
 }
 
+// ---- the abstraction of unit ids_lift (predicate text copied; the stub contracts below must be textually those of ids_lift)
+/// the point (client, clock) is a member
+pub open spec fn has_pt<T>(m: Map<ClientID, Seq<Ent<T>>>, client: ClientID, clock: int) -> bool {
+    m.contains_key(client) && covers(m[client], clock)
+}
+
+/// every per-client entry is canonical
+pub open spec fn canon_all<T: Merge>(m: Map<ClientID, Seq<Ent<T>>>) -> bool {
+    forall|c: ClientID| #[trigger] m.contains_key(c) ==> canon(m[c])
+}
+
+/// "empty IdRanges entries are never stored in the map" (doc comment of IdMapInner::is_empty)
+pub open spec fn no_empty_entry<T>(m: Map<ClientID, Seq<Ent<T>>>) -> bool {
+    forall|c: ClientID| #[trigger] m.contains_key(c) ==> m[c].len() > 0
+}
+
+/// representation invariant of IdMapInner / IdSet / IdMap (unit ids_lift)
+pub open spec fn wf_map<T: Merge>(m: Map<ClientID, Seq<Ent<T>>>) -> bool {
+    canon_all(m) && no_empty_entry(m)
+}
+
+/// all clients except `k` are untouched
+pub open spec fn same_except<T>(a: Map<ClientID, Seq<Ent<T>>>, b: Map<ClientID, Seq<Ent<T>>>, k: ClientID) -> bool {
+    forall|c: ClientID| c != k ==> (#[trigger] a.contains_key(c) == b.contains_key(c)) && (a.contains_key(c) ==> a[c] == b[c])
+}
+
 impl IdSet {
     pub open spec fn view(&self) -> Map<ClientID, Seq<Ent<()>>> {
         self.0@
@@ -264,10 +417,26 @@ impl IdSet {
     @sig
         ensures r@ == Map::<ClientID, Seq<Ent<()>>>::empty(),
     @*/
+
+    // STUB: proved in unit ids_lift, label idset_insert_range (contract text cross-checked by the extractor on every run)
+    #[verifier::external_body]
+    /*@extract yrs/src/id_set.rs | impl IdSet | fn insert_range | label=stub_idset_insert_range
+    @sig
+        requires
+            wf_map(old(self)@),
+            canon(range@),
+        ensures
+            wf_map(final(self)@),
+            same_except(final(self)@, old(self)@, client),
+            forall|c: ClientID, k: int| #![trigger has_pt(final(self)@, c, k)] #![trigger has_pt(old(self)@, c, k)]
+                has_pt(final(self)@, c, k) <==> has_pt(old(self)@, c, k) || (c == client && covers(range@, k)),
+    @*/
 }
 
-/// one (client, ranges) item of an id set: the client as u64 var-int (must fit into 53 bits), then the client's ranges
-pub open spec fn dec_idset_item(s: Seq<u8>) -> Option<((ClientID, Seq<Ent<()>>), nat)> {
+pub type IdItem = (ClientID, Seq<Ent<()>>);
+
+/// one (client, ranges) item of an id set: the client as u64 var-int (must fit into 53 bits), then the client's RAW ranges
+pub open spec fn dec_idset_item(s: Seq<u8>) -> Option<(IdItem, nat)> {
     match dec_u64(s) {
         None => None,
         Some((client, k)) => match dec_ranges(s.skip(k as int)) {
@@ -277,11 +446,12 @@ pub open spec fn dec_idset_item(s: Seq<u8>) -> Option<((ClientID, Seq<Ent<()>>),
     }
 }
 
-pub open spec fn idset_item() -> spec_fn(Seq<u8>) -> Option<((ClientID, Seq<Ent<()>>), nat)> {
+pub open spec fn idset_item() -> spec_fn(Seq<u8>) -> Option<(IdItem, nat)> {
     |s: Seq<u8>| dec_idset_item(s)
 }
 
-/// the map built by inserting the items one after the other (a later item REPLACES an earlier one of the same client)
+/// the map built by inserting the items one after the other (a later item REPLACES an earlier one of the same client);
+/// used by StateVector / AwarenessUpdate (a HashMap::insert per item)
 pub open spec fn map_of<V>(items: Seq<(ClientID, V)>) -> Map<ClientID, V>
     decreases items.len(),
 {
@@ -292,15 +462,28 @@ pub open spec fn map_of<V>(items: Seq<(ClientID, V)>) -> Map<ClientID, V>
     }
 }
 
-/// `IdSet::decode`: a u32 client count, then that many items
-pub open spec fn dec_idset(s: Seq<u8>) -> Option<(Map<ClientID, Seq<Ent<()>>>, nat)> {
+/// `IdSet::decode` on the wire: a u32 client count, then that many (client, raw ranges) SECTIONS
+pub open spec fn dec_idset(s: Seq<u8>) -> Option<(Seq<IdItem>, nat)> {
     match dec_u32(s) {
         None => None,
         Some((n, k)) => match dec_list(idset_item(), s.skip(k as int), n as nat) {
             None => None,
-            Some((items, k2)) => Some((map_of(items), k + k2)),
+            Some((items, k2)) => Some((items, k + k2)),
         },
     }
+}
+
+/// the point (c, k) lies in one of the first `n` client sections
+pub open spec fn items_pt(items: Seq<IdItem>, n: int, c: ClientID, k: int) -> bool {
+    exists|i: int| 0 <= i < n && i < items.len() && (#[trigger] items[i]).0 == c && covers(items[i].1, k)
+}
+
+/// `m` is THE set decoded from the client sections `items`: it satisfies the representation invariant of unit ids_lift
+/// (every stored entry canonical and non-empty) and its points are the union of the sections (repeated clients merged,
+/// sections without points dropped).  Unique by lemma_wf_map_unique.
+pub open spec fn idset_of(items: Seq<IdItem>, m: Map<ClientID, Seq<Ent<()>>>) -> bool {
+    &&& wf_map(m)
+    &&& forall|c: ClientID, k: int| #![trigger has_pt(m, c, k)] has_pt(m, c, k) <==> items_pt(items, items.len() as int, c, k)
 }
 
 pub proof fn lemma_idset_item_bounded()
@@ -331,17 +514,84 @@ pub proof fn lemma_map_of_len<V>(items: Seq<(ClientID, V)>)
     }
 }
 
-/// every range stored for any client has start <= end -- ALL that `IdSet::decode` guarantees about the shape of its result
+/// every range stored for any client has start <= end (the domain of the v1 encoder; implied by wf_map)
 pub open spec fn ranges_ordered(m: Map<ClientID, Seq<Ent<()>>>) -> bool {
     forall|c: ClientID, i: int| #![trigger m[c][i]] m.contains_key(c) && 0 <= i < m[c].len() ==> m[c][i].0.start <= m[c][i].0.end
+}
+
+pub proof fn lemma_wf_ranges_ordered(m: Map<ClientID, Seq<Ent<()>>>)
+    requires
+        wf_map(m),
+    ensures
+        ranges_ordered(m),
+{
+    assert forall|c: ClientID, i: int| #![trigger m[c][i]] m.contains_key(c) && 0 <= i < m[c].len() implies m[c][i].0.start <= m[c][i].0.end by {
+        assert(canon(m[c]));
+        assert(m[c][i].0.start < m[c][i].0.end);
+    }
+}
+
+/// the raw ranges of the client section read from `sb` (v1: what is on the wire; otherwise nothing is known about the wire
+/// format and the section is represented by the decoded value itself)
+pub open spec fn section_raw<D: Decoder>(sb: Seq<u8>, rng: Seq<Ent<()>>) -> Seq<Ent<()>> {
+    if D::v1() { dec_ranges(sb)->Some_0.0 } else { rng }
+}
+
+/// one iteration of `IdSet::decode` (the contract of `insert_range` is the hypotheses about m0 / m1)
+pub proof fn lemma_idset_step(m0: Map<ClientID, Seq<Ent<()>>>, m1: Map<ClientID, Seq<Ent<()>>>, client: ClientID, rng: Seq<Ent<()>>, raw: Seq<Ent<()>>,
+    items: Seq<IdItem>)
+    requires
+        same_except(m1, m0, client),
+        forall|c: ClientID, k: int| #![trigger has_pt(m1, c, k)] #![trigger has_pt(m0, c, k)] has_pt(m1, c, k) <==> has_pt(m0, c, k) || (c == client && covers(rng, k)),
+        forall|k: int| #![trigger covers(rng, k)] #![trigger covers(raw, k)] covers(rng, k) <==> covers(raw, k),
+        forall|c: ClientID, k: int| #![trigger has_pt(m0, c, k)] has_pt(m0, c, k) <==> items_pt(items, items.len() as int, c, k),
+        m0.dom().finite(),
+    ensures
+        forall|c: ClientID, k: int| #![trigger has_pt(m1, c, k)] has_pt(m1, c, k) <==> items_pt(items.push((client, raw)), (items.len() + 1) as int, c, k),
+        m1.dom().finite(),
+        m1.len() <= m0.len() + 1,
+{
+    let items1 = items.push((client, raw));
+    let n = items.len() as int;
+    assert forall|c: ClientID, k: int| #![trigger has_pt(m1, c, k)] has_pt(m1, c, k) <==> items_pt(items1, n + 1, c, k) by {
+        assert(has_pt(m1, c, k) <==> has_pt(m0, c, k) || (c == client && covers(rng, k)));
+        assert(has_pt(m0, c, k) <==> items_pt(items, n, c, k));
+        assert(covers(rng, k) <==> covers(raw, k));
+        if items_pt(items, n, c, k) {
+            let i = choose|i: int| 0 <= i < n && i < items.len() && (#[trigger] items[i]).0 == c && covers(items[i].1, k);
+            assert(items1[i] == items[i]);
+            assert(0 <= i < n + 1 && i < items1.len() && items1[i].0 == c && covers(items1[i].1, k));
+        }
+        if c == client && covers(raw, k) {
+            assert(items1[n] == (client, raw));
+            assert(0 <= n < n + 1 && n < items1.len() && items1[n].0 == c && covers(items1[n].1, k));
+        }
+        if items_pt(items1, n + 1, c, k) {
+            let i = choose|i: int| 0 <= i < n + 1 && i < items1.len() && (#[trigger] items1[i]).0 == c && covers(items1[i].1, k);
+            if i < n {
+                assert(items1[i] == items[i]);
+                assert(0 <= i < n && i < items.len() && items[i].0 == c && covers(items[i].1, k));
+            } else {
+                assert(items1[i] == (client, raw));
+            }
+        }
+    }
+    assert(m1.dom().subset_of(m0.dom().insert(client))) by {
+        assert forall|c: ClientID| m1.dom().contains(c) implies m0.dom().insert(client).contains(c) by {
+            if c != client {
+                assert(m1.contains_key(c) == m0.contains_key(c));
+            }
+        }
+    }
+    vstd::set_lib::lemma_len_subset(m1.dom(), m0.dom().insert(client));
 }
 
 impl Decode for IdSet {
     // (a) TOTAL + PROGRESS: every iteration consumes >= 2 bytes (invariant `decoder.rest().len() + 2 * i <= s1.len()`)
     //     the client id goes through `ClientID::decode` (F-DC-2, repaired): a value >= 2^53 is an error
-    // (c) RESULT SHAPE: at most (consumed bytes) / 2 clients, every stored range has start <= end; NOT canonical, empty
-    //     per-client entries possible, a repeated client REPLACES the earlier entry
-    // (d) v1: equality with `dec_idset`
+    // (c) RESULT SHAPE: at most (consumed bytes) / 2 clients; the REPRESENTATION INVARIANT of unit ids_lift (F-DC-9, repaired:
+    //     `insert_range`): every stored entry canonical and non-empty
+    // (d) v1: the point set is the union of the decoded client sections (`idset_of`; repeated clients are merged)
     /*@extract yrs/src/id_set.rs | impl Decode for IdSet | fn decode | label=idset_decode
     @ret res
     @sig
@@ -349,14 +599,15 @@ impl Decode for IdSet {
             res is Ok ==> 2 * res->Ok_0@.len() < old(decoder).rest().len() - final(decoder).rest().len(),
             res is Ok ==> ranges_ordered(res->Ok_0@),
             res is Ok ==> res->Ok_0.enc_ok(),
+            res is Ok ==> wf_map(res->Ok_0@),
             D::v1() ==> match dec_idset(old(decoder).rest()) {
-                Some((m, k)) => res is Ok && res->Ok_0@ == m && k <= old(decoder).rest().len() && final(decoder).rest() == old(decoder).rest().skip(k as int),
+                Some((items, k)) => res is Ok && idset_of(items, res->Ok_0@) && k <= old(decoder).rest().len() && final(decoder).rest() == old(decoder).rest().skip(k as int),
                 None => res is Err,
             },
     @start
         let ghost s0 = decoder.rest();
         let ghost mut kk: nat = 0;
-        let ghost mut items = Seq::<(ClientID, Seq<Ent<()>>)>::empty();
+        let ghost mut items = Seq::<IdItem>::empty();
     @after 1 `stmt:let client_len`
         let ghost s1 = decoder.rest();
         proof {
@@ -373,8 +624,10 @@ impl Decode for IdSet {
             s1.len() < s0.len(),
             0 <= i <= client_len,
             items.len() == i,
-            set@ == map_of(items),
-            ranges_ordered(set@),
+            wf_map(set@),
+            set@.dom().finite(),
+            set@.len() <= i,
+            forall|c: ClientID, k: int| #![trigger has_pt(set@, c, k)] has_pt(set@, c, k) <==> items_pt(items, items.len() as int, c, k),
             decoder.rest().len() + 2 * i <= s1.len(),
             D::v1() ==> dec_u32(s0) is Some && dec_u32(s0)->Some_0.0 == client_len && s1 == s0.skip(dec_u32(s0)->Some_0.1 as int),
             D::v1() ==> kk <= s1.len() && decoder.rest() == s1.skip(kk as int)
@@ -402,20 +655,18 @@ impl Decode for IdSet {
                 lemma_skip_skip_all(sa, dec_u64(sa)->Some_0.1);
             }
         }
-    @before 1 `stmt:call clients_mut`
-        let ghost raw0 = set.0.raw();
+    @after 1 `stmt:let range`
+        let ghost m0 = set@;
+        let ghost rng = range@;
+        let ghost raw = section_raw::<D>(sb, rng);
         proof {
-            axiom_client_id_ord_key_model();
-            set.0.lemma_view();
             lemma_suffix_step(s0, sb, decoder.rest());
         }
-    @after 1 `stmt:call clients_mut`
+    @loopend 1
         proof {
-            set.0.lemma_view();
             let cid = ClientID(client);
-            lemma_lift_insert(raw0, cid, range);
-            lemma_map_of_push(items, cid, range@);
-            items = items.push((cid, range@));
+            lemma_idset_step(m0, set@, cid, rng, raw, items);
+            items = items.push((cid, raw));
             lemma_suffix_step(s1, sb, decoder.rest());
             if D::v1() {
                 assert(dec_idset_item(sa) == idset_item()(sa));
@@ -425,7 +676,7 @@ impl Decode for IdSet {
     @before 1 `stmt:call Ok`
         proof {
             lemma_suffix_step(s0, s1, decoder.rest());
-            lemma_map_of_len(items);
+            lemma_wf_ranges_ordered(set@);
             if D::v1() {
                 lemma_dec_u32_bounded(s0);
                 lemma_counted_finish(idset_item(), s0, dec_u32(s0)->Some_0.1, client_len as nat, s1, items, kk);
